@@ -64,7 +64,8 @@ enum LockMode { LM_BLOCK, LM_TRY, LM_TIMED };
 
 struct ThreadStats {
     uint64_t hooks = 0, lock_calls = 0, lock_contended = 0, cv_waits = 0, yields = 0, atomics = 0,
-             timed_fail = 0, spurious = 0, injected = 0;
+             timed_fail = 0, spurious = 0, injected = 0,
+             block_waits = 0;  // untimed blocking waits: contended blocking lock acquisitions + untimed condition waits
     uint64_t kinds[NKIND] = {};
 };
 
@@ -85,6 +86,7 @@ struct ThreadCtx {
     std::atomic<const void*> blocked_on{nullptr};
     std::atomic<int> blocked_kind{0};  // 0 none, 1 mutex, 2 cv, 3 harness spin
     std::atomic<uint64_t> progress{0};
+    std::atomic<uint64_t> yield_count{0};  // library spin-yields of this thread (readable by other threads)
     // stress injection parameters of the current round
     uint32_t inj_p = 0;  // 0: no injection, else probability 1/inj_p
     uint64_t stall_at = 0;
@@ -97,6 +99,7 @@ struct ThreadCtx {
         int ttl;
     };
     std::vector<SbEnt> sb;
+    std::vector<const void*> block_objs;  // mutexes / condvars this thread performed an untimed blocking wait on (harness clears it)
     // fault injection (per thread): the k-th call of maybe_throw() at an enabled site throws
     long throw_at = 0;
     long throw_calls = 0;
@@ -637,7 +640,7 @@ class vm_core {
                           (mode == LM_BLOCK ? M_LOCK : mode == LM_TRY ? M_TRY : M_TIMED);
         c.st.lock_calls++;
         if (rt.engine.load(std::memory_order_relaxed) == E_SERIAL && c.vtid >= 0) {
-            bool counted = false;
+            bool counted = false, blocked_counted = false;
             for (;;) {
                 pre(k, this);
                 bool free = shared ? (sh_owner_.load(std::memory_order_relaxed) == 0) :
@@ -655,6 +658,11 @@ class vm_core {
                 if (mode == LM_TRY) {
                     c.st.timed_fail++;
                     return false;
+                }
+                if (mode == LM_BLOCK && !blocked_counted) {
+                    c.st.block_waits++;
+                    if (c.block_objs.size() < 64) c.block_objs.push_back(this);
+                    blocked_counted = true;
                 }
                 auto& t = rt.sth[c.vtid];
                 t.st = SThread::BLK_MUTEX;
@@ -681,6 +689,8 @@ class vm_core {
             return false;
         }
         if (mode == LM_BLOCK) {
+            c.st.block_waits++;
+            if (c.block_objs.size() < 64) c.block_objs.push_back(this);
             c.blocked_on.store(this, std::memory_order_relaxed);
             c.blocked_kind.store(1, std::memory_order_relaxed);
             real_lock(shared);
@@ -805,6 +815,10 @@ class verif_condition_variable {
         ThreadCtx& c = ctx();
         verif_mutex* m = lk.mutex();
         c.st.cv_waits++;
+        if (deadline_ns < 0) {
+            c.st.block_waits++;
+            if (c.block_objs.size() < 64) c.block_objs.push_back(this);
+        }
         pre(CV_WAIT, this);
         if (rt.engine.load(std::memory_order_relaxed) == E_SERIAL && c.vtid >= 0) {
             auto& t = rt.sth[c.vtid];
@@ -1097,6 +1111,7 @@ namespace this_thread {
     {
         vrf::ThreadCtx& c = vrf::ctx();
         c.st.yields++;
+        c.yield_count.fetch_add(1, std::memory_order_relaxed);
         vrf::pre(vrf::T_YIELD, nullptr);
         if (!(vrf::rt.engine.load(std::memory_order_relaxed) == vrf::E_SERIAL && c.vtid >= 0)) sched_yield();
     }
